@@ -165,6 +165,10 @@ func propIDs() []string {
 type SimWaker struct {
 	ch    atomic.Pointer[chan struct{}]
 	Ticks int
+	// adv, if set, makes Tick advance the simulated clock instead: the tailer was
+	// given mtail's real timed waker (a ticker goroutine under the fake clock)
+	// and this object is only the harness's handle for "let a poll happen".
+	adv func()
 }
 
 func NewSimWaker() *SimWaker {
@@ -179,6 +183,11 @@ func (w *SimWaker) Wake() <-chan struct{} { return *w.ch.Load() }
 // Tick wakes everything waiting on the waker. Controller only, with all tasks
 // stopped.
 func (w *SimWaker) Tick() {
+	if w.adv != nil {
+		w.Ticks++
+		w.adv()
+		return
+	}
 	c := make(chan struct{})
 	old := w.ch.Swap(&c)
 	close(*old)
